@@ -109,3 +109,32 @@ Theorem C05_SO3_rjac_is_derivative eps x y z dx dy dz i j : 0 < eps -> eps < x *
     (@mnth RS (@Mat.mmul RS (so3_rotation RS (so3_exp RS eps [x; y; z])) (@skew3 RS (@mvmul RS (so3_rjac RS eps [x; y; z]) [dx; dy; dz]))) i j).
 Proof. intros H. exact (so3_rjac_is_derivative eps H x y z dx dy dz i j). Qed.
 Print Assumptions C05_SO3_rjac_is_derivative.
+
+(* SE3: rjac(t) is the right Jacobian of exp at t, generic branch.  Translation part: along any direction d the translation of
+   exp(t + h d) (= V(theta) rho, as the code computes it) has derivative R(exp t) u_rho at h = 0, with u = rjac(t) d and
+   u_rho its first three components (Jr d_rho + Q(-t) d_theta, Q = fillQ).  Rotation part: the last three components of u are
+   the SO3 right Jacobian applied to d_theta (C05_SE3_rjac_angular_block), for which C05_SO3_rjac_is_derivative is the statement.
+   Together: d/dh T(exp(t + h d)) = T(exp t) hat(rjac(t) d) for the homogeneous matrix T. *)
+From Manif Require Import Jr_SE3.
+Theorem C05_SE3_rjac_translation_derivative eps a b c x y z da db dc dx dy dz i : 0 < eps -> eps < x * x + y * y + z * z -> (i < 3)%nat ->
+  is_derive (fun h => nth i (se3_exp RS eps [a + h * da; b + h * db; c + h * dc; x + h * dx; y + h * dy; z + h * dz]) 0) 0
+    (nth i (@mvmul RS (so3_rotation RS (so3_exp RS eps [x; y; z]))
+                   (firstn 3 (@mvmul RS (se3_rjac RS eps [a; b; c; x; y; z]) [da; db; dc; dx; dy; dz]))) 0).
+Proof. intros H. exact (se3_rjac_translation_derivative eps H a b c x y z da db dc dx dy dz i). Qed.
+Theorem C05_SE3_rjac_angular_block eps a b c x y z da db dc dx dy dz : 0 < eps -> eps < x * x + y * y + z * z ->
+  skipn 3 (@mvmul RS (se3_rjac RS eps [a; b; c; x; y; z]) [da; db; dc; dx; dy; dz]) = @mvmul RS (so3_rjac RS eps [x; y; z]) [dx; dy; dz].
+Proof. intros H. exact (rjac_ang eps H a b c x y z da db dc dx dy dz). Qed.
+Print Assumptions C05_SE3_rjac_translation_derivative.
+
+(* SE_2(3): the same for the translation (components 0..2 of exp) and the velocity (components 7..9): their derivatives
+   along t + h d at h = 0 are R(exp t) applied to the first resp. last block of rjac(t) d *)
+From Manif Require Import SE23 Jr_SE23.
+Theorem C05_SE23_rjac_is_derivative eps a b c x y z d e f da db dc dx dy dz dd de df i : 0 < eps -> eps < x * x + y * y + z * z -> (i < 3)%nat ->
+  let R := so3_rotation RS (so3_exp RS eps [x; y; z]) in
+  let u := @mvmul RS (se23_rjac RS eps [a; b; c; x; y; z; d; e; f]) [da; db; dc; dx; dy; dz; dd; de; df] in
+  is_derive (fun h => nth i (se23_exp RS eps [a + h * da; b + h * db; c + h * dc; x + h * dx; y + h * dy; z + h * dz; d + h * dd; e + h * de; f + h * df]) 0) 0
+            (nth i (@mvmul RS R (firstn 3 u)) 0) /\
+  is_derive (fun h => nth (7 + i) (se23_exp RS eps [a + h * da; b + h * db; c + h * dc; x + h * dx; y + h * dy; z + h * dz; d + h * dd; e + h * de; f + h * df]) 0) 0
+            (nth i (@mvmul RS R (skipn 6 u)) 0).
+Proof. intros H. exact (se23_rjac_is_derivative eps H a b c x y z d e f da db dc dx dy dz dd de df i). Qed.
+Print Assumptions C05_SE23_rjac_is_derivative.
